@@ -278,13 +278,17 @@ def gen(rng, depth, kf=False):
     return ("bin", op, a, b)
 
 
-def boundary_cases():
+def boundary_cases(tier="thorough"):
     """deterministic batch: every boundary literal alone and under each unary operator, and all pairs of a small set
-    of typed operands under every binary operator (the per-operator case split of the proofs)"""
+    of typed operands under every binary operator (the per-operator case split of the proofs).  The quick tier takes
+    every other operand of the pair table (12 x 12 x 18) and every third literal."""
     cases = []
+    quick = (tier == "quick")
     lits = [d + s for d in DEC for s in ("", "u", "L", "UL", "ll")] + [d + s for d in DEC_U_ONLY for s in ("u", "ULL")]
     lits += [h + s for h in HEX for s in ("", "u", "l", "ull")] + [o + s for o in OCT for s in ("", "U", "LL")]
     lits += [b + s for b in BIN for s in ("", "u", "L")] + FLT + [f + "f" for f in FLT] + ["true", "false"]
+    if quick:
+        lits = lits[::3]
     for l in lits:
         cases.append(l)
     for l in lits[::3]:
@@ -293,6 +297,8 @@ def boundary_cases():
     opnds = ["true", "false", "0", "1", "7", "- 1", "- 7", "2147483647", "- 2147483647 - 1", "3u", "4294967295u", "0x80000000",
              "5L", "- 5L", "9223372036854775807L", "6UL", "18446744073709551615UL", "3ll", "2ull",
              "1.5", "2.0f", "- 0.0", "0.0", "1.0"]
+    if quick:
+        opnds = opnds[::2]
     for op in BINOPS:
         for a in opnds:
             for b in opnds:
@@ -522,38 +528,48 @@ def render_bare(t):
     return render_min(t, 0, safe=False)
 
 
-def shrink_tree(D, model, text, keep_clean):
-    """greedy: among all one-step simplifications that still fail the specification (and, if keep_clean, still satisfy
-    the known-finding guards) take the smallest; repeat.  Candidates are rendered fully parenthesised unless the
-    failure only shows without parentheses (a defect of the expression parser rather than of the folder)."""
-    t = parse(text)
-    if t is None:
-        return text
-    rend = None
-    for r in (render, render_bare):
-        i0, r0, s0 = D.eval([r(t)], parallel=False)
-        if D.fails_spec(i0[0], s0[0]):
-            rend = r
-            break
-    if rend is None:
-        return text
+def shrink_many(D, model, items):
+    """items: [(text, keep_clean)] -> shrunk texts.  Greedy tree shrinking of all failing cases in lock step (one run of
+    the library driver per round for all of them): among the one-step simplifications that still fail the specification
+    (and, if keep_clean, still satisfy the known-finding guards) take the smallest; repeat.  Candidates are rendered fully
+    parenthesised unless the failure only shows without parentheses (a defect of the expression parser rather than of
+    the folder)."""
+    trees = [parse(t) for t, _ in items]
+    rend = [None] * len(items)
+    probe, where = [], []
+    for k, t in enumerate(trees):
+        if t is not None:
+            for r in (render, render_bare):
+                probe.append(r(t))
+                where.append((k, r))
+    if probe:
+        I, R, S = D.eval(probe, parallel=len(probe) > 40)
+        for (k, r), i, s in zip(where, I, S):
+            if rend[k] is None and D.fails_spec(i, s):
+                rend[k] = r
+    active = [k for k in range(len(items)) if rend[k] is not None]
     for _ in range(40):
-        cs = sorted(set(candidates(t)), key=lambda c: (size(c), len(rend(c))))[:400]
-        if not cs:
+        if not active:
             break
-        texts = [rend(c) for c in cs]
+        texts, owner = [], []
+        for k in active:
+            cs = sorted(set(candidates(trees[k])), key=lambda c: (size(c), len(rend[k](c))))[:300]
+            for c in cs:
+                if c != trees[k] and size(c) < size(trees[k]) + (1 if c[0] == "lit" and trees[k][0] == "lit" else 0):
+                    texts.append(rend[k](c))
+                    owner.append((k, c))
+        if not texts:
+            break
         I, R, S = D.eval(texts, parallel=len(texts) > 40)
-        tags = guard_tags(model, texts) if keep_clean else [set()] * len(texts)
-        nxt = None
-        for c, i, s, g in zip(cs, I, S, tags):
-            if D.fails_spec(i, s) and not g and size(c) < size(t) + (1 if c[0] == "lit" and t[0] == "lit" else 0):
-                if c != t:
-                    nxt = c
-                    break
-        if nxt is None:
-            break
-        t = nxt
-    return rend(t)
+        tags = guard_tags(model, texts)
+        nxt = {}
+        for (k, c), i, s, g in zip(owner, I, S, tags):
+            if k not in nxt and D.fails_spec(i, s) and not (items[k][1] and g):
+                nxt[k] = c
+        for k in nxt:
+            trees[k] = nxt[k]
+        active = [k for k in active if k in nxt]
+    return [rend[k](trees[k]) if rend[k] is not None else items[k][0] for k in range(len(items))]
 
 
 # known-finding signatures: predicates over the shrunk failing case (structural) confirmed by the Coq guard
@@ -621,6 +637,23 @@ def rank_table_check(model):
     return bad, src, mod
 
 
+def bare_nested_ternary(case):
+    t = parse(case)
+    if t is None:
+        return False
+
+    def has(t, inside):
+        if t[0] == "tern":
+            return inside or any(has(x, True) for x in t[1:4])
+        if t[0] == "un":
+            return has(t[2], False)
+        if t[0] == "bin":
+            return has(t[2], False) or has(t[3], False)
+        return False
+    # only texts in which that nesting is written without parentheses
+    return has(t, False) and render_min(t, 0, safe=True) != " ".join(case.split()) and render(t) != " ".join(case.split())
+
+
 def nontrivial(case):
     return any(op in case for op in (" + ", " - ", " * ", " / ", " % ", " < ", " == ", " && ", " || ", " << ", " >> ",
                                       " & ", " | ", " ^ ", " ? ", " <= ", " >= ", " != ", " > "))
@@ -643,8 +676,8 @@ def run(run, tier, seed, replay_case=None):
 
     rng = random.Random(seed * 7919 + 14)
     corpus = C.load_corpus(PROP)
-    n = 3000 if tier == "quick" else 60000
-    cases = list(corpus) + boundary_cases() + gen_cases(rng, n, tier)
+    n = 1500 if tier == "quick" else 60000
+    cases = list(corpus) + boundary_cases(tier) + gen_cases(rng, n, tier)
     if replay_case is not None:
         cases = [replay_case]
     # drop duplicates, keep order
@@ -653,7 +686,10 @@ def run(run, tier, seed, replay_case=None):
     env = impl_env()
     D = Tie(run, PROP, [impl], model, env, signatures=SIGNATURES,
             model_desc="coq/C14/Model.v (fixed) vs src/types/primitive.cpp + expr/*Node.cpp")
+    import time
+    t0 = time.time()
     I, R, S = D.eval(cases)
+    C.log("[C14] %d cases through library, model and specification (%.1fs)" % (len(cases), time.time() - t0))
     tags = guard_tags(model, cases)
     known = load_known(PROP)
 
@@ -666,19 +702,28 @@ def run(run, tier, seed, replay_case=None):
 
     # ---- property failures: implementation vs specification
     prop_fails = [i for i in range(len(cases)) if D.fails_spec(I[i], S[i])]
-    corr = [i for i in range(len(cases)) if i not in set(prop_fails) and I[i] != R[i]]
+    # a bare nested conditional is mis-parsed by the library (known finding parse_nested_ternary): where the
+    # specification leaves such a case undefined, the model (which starts from the C parse tree) cannot be compared
+    bare = set(i for i in range(len(cases)) if bare_nested_ternary(cases[i]))
+    pf = set(prop_fails)
+    corr = [i for i in range(len(cases)) if i not in pf and i not in bare and I[i] != R[i]]
     reported = set()
     budget = 14 if tier == "quick" else 40
     # clean failures first: they are violations outright
     order = sorted(prop_fails, key=lambda i: (len(tags[i]) > 0, size(parse(cases[i]) or ("lit", ""))))
     per_tagset = {}
+    chosen = []
     for i in order:
-        key = frozenset(tags[i])
+        # spread the shrinking budget over different-looking failures
+        feature = next((f for f in ("<<", ">>", "&&", "||", "==", "!=", "!", "?", ".", "* -", "- -", "+ -")
+                        if f in cases[i]), "plain")
+        key = (frozenset(tags[i]), i in bare, feature)
         per_tagset[key] = per_tagset.get(key, 0) + 1
-        if per_tagset[key] > (6 if not key else 3) or budget <= 0:
+        if per_tagset[key] > 2 or len(chosen) >= budget:
             continue
-        budget -= 1
-        small = shrink_tree(D, model, cases[i], keep_clean=not tags[i])
+        chosen.append(i)
+    smalls = shrink_many(D, model, [(cases[i], not tags[i]) for i in chosen]) if chosen else []
+    for i, small in zip(chosen, smalls):
         if small in reported:
             continue
         reported.add(small)
@@ -705,8 +750,10 @@ def run(run, tier, seed, replay_case=None):
                    "the specification\n" % (PROP, "; ".join(pr["failures"]), len(cases)))
         run.violation("proof obligations no longer check", content, no_input=True)
 
+    C.log("[C14] verdicts and shrinking done (%.1fs)" % (time.time() - t0))
     # ---- specification vs the host compiler
     gx = gxx_eval(cases)
+    C.log("[C14] g++ leg done (%.1fs)" % (time.time() - t0))
     spec_bad = []
     disputed = []
     for c, s, g in zip(cases, S, gx):
@@ -741,6 +788,7 @@ def run(run, tier, seed, replay_case=None):
     cov["gxx_constant_expressions"] = sum(1 for g in gx if g is not None)
     cov["cases_with_known_finding_constructs"] = sum(1 for t in tags if t)
     cov["library_ub_or_crash"] = sum(1 for x in I if x == "R UB")
+    cov["bare_nested_conditionals_not_compared_with_model"] = len(bare)
     distinct = set(c for c in cases if nontrivial(c))
     cov["distinct_nontrivial"] = len(distinct)
     cov["rule"] = ("expression texts: a deterministic batch (every boundary literal x suffix alone and under each unary operator; "
